@@ -67,6 +67,12 @@ theorem cache_consistent (ops : List (Op α)) (s : St α) (h : CacheOK s) :
     CacheOK (run s ops) ∧ (dtgTime (run s ops)).2 = absT (run s ops) :=
   cache_consistent' ops s h
 
+/-- A filled cache never goes stale: whatever history follows, the stamps cached earlier are still the current `ref + tᵢ`
+(so an implementation that resets the cache less often than the code does still satisfies the property). -/
+theorem filled_cache_stays_valid (s : St α) (c : List α) (hc : CacheOK s) (h : s.cache = some c) (ops : List (Op α)) :
+    absT (run s ops) = some c :=
+  filled_cache_stays_valid' s c hc h ops
+
 /-- `dtg_start` / `dtg_end` are the first / last absolute instant. -/
 theorem start_end (s : St α) :
     dtgStart s = (absT s).bind List.head? ∧ dtgEnd s = (absT s).bind List.getLast? :=
